@@ -75,6 +75,15 @@ def f_multi(o):
     return o.value + 2 * f_child(o) + f_nums(o)
 
 
+def f_inner(o):
+    return o.value // 2
+
+
+def f_chain(o):
+    # depends on another observed (cached) property, which is not injective in `value`
+    return 5 * f_inner(o) + 2
+
+
 # name -> (observe expression, function, view spec)
 PROPS = {
     "scalar": ("value", f_scalar),
@@ -86,6 +95,7 @@ PROPS = {
     "nested": ("child.kids.items.value", f_nested),
     "kidchild": ("kids.items.child.value", f_kidchild),
     "multi": (["value", "child.value", "nums.items"], f_multi),
+    "chain": ("c_inner", f_chain),
 }
 
 
@@ -103,6 +113,10 @@ for _n, (_expr, _fn) in PROPS.items():
     _ns["_get_c_" + _n] = _mk(_n, _fn, True)
     _ns["u_" + _n] = Property(Int, observe=_expr)
     _ns["_get_u_" + _n] = _mk(_n, _fn, False)
+
+
+_ns["c_inner"] = Property(Int, observe="value")
+_ns["_get_c_inner"] = cached_property(lambda self: self.value // 2)
 
 
 def _tpc(self, name, old, *rest):
@@ -170,6 +184,9 @@ def walk(obj, path, idx, matched, view):
 
 
 def snapshot_view(root, pname, idx):
+    if pname == "chain":
+        # the dependency is itself a property: its value is the view, `value` is what a mutation touches
+        return {("t", id(root), "value")}, [-7, f_inner(root)]
     matched, view = set(), []
     for p in PATHS[pname]:
         view.append(-7)
@@ -182,16 +199,27 @@ def run_case(case):
     attr = ("c_" if cached else "u_") + pname
     fn = PROPS[pname][1]
     n = case["n"]
-    pool = [Root()] + [Node() for _ in range(n - 1)]
-    for i, d in enumerate(case["init"]):
-        o = pool[i]
-        o.value = d["value"]
-        if d.get("child") is not None:
-            o.child = pool[d["child"]]
-        o.kids = [pool[j] for j in d["kids"]]
-        o.m = {k: pool[j] for k, j in d["m"]}
-        o.s = set(pool[j] for j in d["s"])
-        o.nums = list(d["nums"])
+    if case.get("kwargs"):
+        # state given to the constructor: the observers are installed before the state is set
+        pool = [None] * n
+        for i in range(n - 1, -1, -1):
+            d = case["init"][i]
+            kw = dict(value=d["value"], kids=[pool[j] for j in d["kids"]], m={k: pool[j] for k, j in d["m"]},
+                      s=set(pool[j] for j in d["s"]), nums=list(d["nums"]))
+            if d.get("child") is not None:
+                kw["child"] = pool[d["child"]]
+            pool[i] = (Root if i == 0 else Node)(**kw)
+    else:
+        pool = [Root()] + [Node() for _ in range(n - 1)]
+        for i, d in enumerate(case["init"]):
+            o = pool[i]
+            o.value = d["value"]
+            if d.get("child") is not None:
+                o.child = pool[d["child"]]
+            o.kids = [pool[j] for j in d["kids"]]
+            o.m = {k: pool[j] for k, j in d["m"]}
+            o.s = set(pool[j] for j in d["s"])
+            o.nums = list(d["nums"])
     events = []
 
     def canon(v):
